@@ -244,6 +244,14 @@ func (x *Exec) call(st *State, c *ast.CallExpr) []Value {
 		args = append(args, v)
 	}
 	cal := x.resolveCallee(fn, recvT, c)
+	if cal != nil && cal.ct == nil && cal.pkg != nil && cal.pkg.FindFuncObj(cal.fn) != nil {
+		// a function of the repository without a contract: nothing is known
+		// about its result, and everything its body (transitively) may write is
+		// havocked - a sound over-approximation recorded per run. Obligations
+		// that needed more than that fail by name instead of leaving the subset.
+		cal.ct = &FuncContract{Key: cal.key, Mode: x.vc.mode, Loops: map[string]*LoopSpec{}}
+		x.vc.abstractedCalls = append(x.vc.abstractedCalls, x.vc.fn+" -> "+cal.key)
+	}
 	if cal == nil || cal.ct == nil {
 		x.unsup(c.Pos(), "call to %s which has no contract", full)
 	}
@@ -336,6 +344,9 @@ func (x *Exec) builtin(st *State, c *ast.CallExpr, name string) []Value {
 		return []Value{x.appendCall(st, c)}
 	case "copy":
 		return []Value{x.copyCall(st, c)}
+	case "clear":
+		x.clearCall(st, c)
+		return nil
 	case "make":
 		t := x.typeOf(c)
 		switch u := t.Underlying().(type) {
@@ -381,6 +392,37 @@ func (x *Exec) builtin(st *State, c *ast.CallExpr, name string) []Value {
 	}
 	x.unsup(c.Pos(), "builtin %s", name)
 	return nil
+}
+
+// clearCall models clear(m) (empty map) and clear(s) (zeroed elements).
+func (x *Exec) clearCall(st *State, c *ast.CallExpr) {
+	vc := x.vc
+	v := x.expr(st, c.Args[0])
+	switch u := v.Ty.Underlying().(type) {
+	case *types.Map:
+		k := vc.mapKind(u)
+		hs := vc.heapOfKind(st, k)
+		names, _ := vc.heapVars(k)
+		dom := tSelect(hs[1], v.T)
+		empty := Term{S: fmt.Sprintf("((as const %s) false)", dom.Sort), Sort: dom.Sort}
+		// clear on a nil map is a no-op; object 0's content is never observed
+		st.heaps[names[1]] = vc.name(st, names[1], tStore(hs[1], v.T, empty))
+		st.heaps[names[2]] = vc.name(st, names[2], tStore(hs[2], v.T, vc.idxLit(0)))
+	case *types.Slice:
+		k := vc.sliceKind(u.Elem())
+		h := vc.heapOfKind(st, k)[0]
+		ref, off, ln := vc.slRef(v.T), vc.slOff(v.T), vc.slLen(v.T)
+		old := vc.name(st, "dst", tSelect(h, ref))
+		narr := vc.fresh("arr", arraySort(vc.idx(), vc.sortOf(u.Elem())))
+		vc.n++
+		bv := fmt.Sprintf("k!%d", vc.n)
+		kv := Term{S: bv, Sort: vc.idx()}
+		body := tEq(tSelect(narr, kv), tIte(tAnd(vc.ile(off, kv), vc.ilt(kv, vc.iadd(off, ln))), vc.zero(u.Elem()), tSelect(old, kv)))
+		st.assume(Term{S: fmt.Sprintf("(forall ((%s %s)) (! %s :pattern ((select %s %s))))", bv, vc.idx(), body.S, narr.S, bv), Sort: "Bool"})
+		st.heaps[k.Name] = vc.name(st, k.Name, tStore(h, ref, narr))
+	default:
+		x.unsup(c.Pos(), "clear of %s", v.Ty)
+	}
 }
 
 // copyCall models copy(dst, src) exactly: n = min(len(dst), len(src)) elements
